@@ -35,4 +35,28 @@ theorem translated_join_preserves_inv {U : List Entry} (hU : (hashes U).Nodup) {
                          clock := { id := A.clock.id, time := (joinU A B).clock.time } } : Log) = joinU A B := rfl
     rw [heq]; exact h
 
+/-- **the translated merge is the union** (C01: commutative, associative, idempotent on entry sets; C05: nothing a
+    replica holds is lost): what the translated tail of `Join` returns as entries is exactly what either log held -/
+theorem translated_join_union {U : List Entry} (hU : (hashes U).Nodup) {A B : Log}
+    (IA : Inv U A) (IB : Inv U B) (hid : A.id = B.id)
+    (cands E' : List Entry) (N' : List Hash) (H' : List Entry) (t : Int)
+    (hd : Generated.Go.logDifference (diffFuel B.entries B.heads) B.entries B.heads A.entries A.id = some cands)
+    (ht : Generated.Go.joinTail (fun E H => values { A with entries := E, heads := H })
+        A.entries A.nextIdx A.heads A.clock.id A.clock.time cands B.heads (-1) = some (A.clock.id, t, E', N', H')) :
+    ∀ x, x ∈ E' ↔ x ∈ A.entries ∨ x ∈ B.entries := by
+  have hc : cands = difference B.entries B.heads A := by
+    have := logDifference_eq B.entries B.heads A
+    rw [hd] at this
+    exact Option.some.inj this
+  have h1 : Generated.Go.joinTail (fun E H => values { A with entries := E, heads := H })
+      A.entries A.nextIdx A.heads A.clock.id A.clock.time cands B.heads (-1) =
+      some (A.clock.id, (joinU A B).clock.time, (joinU A B).entries, (joinU A B).nextIdx, (joinU A B).heads) := by
+    rw [hc, joinTail_eq A B.entries B.heads (-1), joinTrim_unbounded]; rfl
+  rw [ht] at h1
+  injection h1 with h2
+  have hE : E' = (joinU A B).entries := (Prod.mk.inj (Prod.mk.inj (Prod.mk.inj h2).2).2).1
+  intro x
+  rw [hE]
+  exact mem_jEntries hU IA IB hid
+
 end Model.Capstone
